@@ -604,6 +604,7 @@ def shrink(trace, prop, clause):
 
 
 def chunk(payload):
+    core.TIER = payload.get('tier', 'quick')
     prop, seeds = payload['prop'], payload['seeds']
     agg = core.Agg()
     for seed in seeds:
